@@ -30,6 +30,7 @@ RULE = ('cases = one Bezier segment (class-structured random control points: mag
         'random in [-0.25,1.25], arrays); every monitored call is compared with exact-rational Bernstein arithmetic; '
         'plus one symbolic-value execution per shard proving the polynomial identities for all values; distinct by '
         'segment spec + parameter list; non-trivial if at least one oracle verdict was reached')
+RULE += '; parameters within 1e-13..1e-4 of both ends of [0,1] (inside and outside); the same queries on reversed() copies made after length() and after control-point assignment'
 ASSUMPTIONS = ['fractions.Fraction arithmetic and sympy.expand are correct',
                'symbolic identity stands for all values only where float runs execute the same lines as the symbolic run '
                '(monitored; deviations are reported in the evidence as float_lines_outside_symbolic)']
